@@ -118,6 +118,9 @@ def word_case(w):
                 d = 1
                 while j < n and d > 0:
                     ch = w[j]
+                    if ch == "\\" and j + 1 < n and w[j + 1] in "{}":
+                        j += 2  # escape convention (R3): a brace preceded by a backslash is a character, not a delimiter
+                        continue
                     if ch == "{":
                         d += 1
                     elif ch == "}":
